@@ -284,6 +284,7 @@ func (e *cryptoEnum) one(alg int, via string, key [16]byte, count uint32, bearer
 	}
 	in := cryptoCase{Alg: alg, Via: via, Key: hex.EncodeToString(key[:]), Count: count, Bearer: bearer, Dir: dir, Bits: bits, Payload: hex.EncodeToString(payload)}
 	e.n++
+	e.c.Distinct(core.Hash64(alg, via, key[:], count, bearer, dir, bits, payload), bits > 0)
 	if e.c.Begin("case", fmt.Sprintf("alg%d", alg), in) {
 		e.exec(e.c, in)
 	}
@@ -419,6 +420,7 @@ func (e *cryptoEnum) run() {
 				for si, sq := range seqs {
 					h := cryptoHistory{Mac: e.mac, Alg: alg, Via: via, Key: hex.EncodeToString(k[:]), Count: 0x00000777 + uint32(si), Bearer: uint8(3 + ki), Dir: uint8(ki), Pat: 1 + si%3, Lengths: sq}
 					e.n += int64(len(sq))
+					e.c.Distinct(core.Hash64("history", alg, via, k[:], si), true)
 					if e.c.Begin("history", fmt.Sprintf("alg%d", alg), h) {
 						cryptoHistoryExec(e.c, h)
 					}
@@ -457,7 +459,7 @@ func init() {
 			"key/COUNT values are covered by structured alphabets (single-bit, single-octet, boundary values), not completely; the argument is that key and IV enter only through the initial state load and everything after it is compared table by table (component checks) and clock by clock (lock-step state comparison)",
 			"bits beyond the stated length in the last octet are not compared (undefined by the standards)",
 		},
-		Finish: func(m *core.Merged, cov map[string]any) { cov["distinct_nontrivial"] = m.Counters["evaluations"] },
+		Finish: finishDistinct("distinct by the complete parameter tuple (algorithm, entry point, key, COUNT, bearer, direction, bit length, payload); non-trivial = at least one payload bit"),
 	})
 	core.RegisterProp(&core.PropSpec{
 		ID: "C07", Level: "exploration",
@@ -472,6 +474,6 @@ func init() {
 			"key/COUNT values are covered by structured alphabets, not completely (see C06)",
 			"unused bits of the last message octet are zero; L = 0 is outside the standards' definition for EIA1/EIA3 (C08 asserts only 'no panic' there)",
 		},
-		Finish: func(m *core.Merged, cov map[string]any) { cov["distinct_nontrivial"] = m.Counters["evaluations"] },
+		Finish: finishDistinct("distinct by the complete parameter tuple (algorithm, entry point, key, COUNT, bearer, direction, bit length, payload); non-trivial = at least one payload bit"),
 	})
 }
